@@ -419,5 +419,7 @@ def run(repo, chk):
         chk.rule('C13.B4', 'the lexer decodes escapes to the bytes they denote (escape table, \\xHH and \\u{...} readers) - shared with C12.R1/R2')
         from . import c12
         from ..report import Remap as _Remap
-        c12.run(repo, _Remap(chk, {'C12.R2': 'C13.B4'}))
+        # ... and the source file is split into lines on \\n only, so that every other byte of a literal (form feed, U+2028,
+        # ...) stays inside it (shared with C12.R6)
+        c12.run(repo, _Remap(chk, {'C12.R2': 'C13.B4', 'C12.R6': lambda c: 'C13.B4' if c.startswith('SourceCode') else None}))
     chk.not_decided = ['that the Sphinx assembler implements its own escape grammar as documented']
